@@ -3,6 +3,7 @@ let props : (string * (module Frame.PROP)) list = [
   ("C11", (module C11));
   ("C13", (module C13));
   ("C15", (module C15));
+  ("C18", (module C18));
 ]
 
 let () =
